@@ -90,7 +90,7 @@ impl Prop for C29 {
 
     fn runs(tier: Tier) -> u64 {
         match tier {
-            Tier::Quick => 300_000,
+            Tier::Quick => 450_000,
             Tier::Thorough => 20_000_000,
         }
     }
